@@ -2964,6 +2964,7 @@ func (s *swamp) deleteHandler(key string, shadowDelete bool) (deletedTreasure tr
 	if treasureObj == nil {
 		return nil
 	}
+	verifhook.Point("swamp.deletehandler.begin", verifhook.ID(s))
 
 	guardID := treasureObj.StartTreasureGuard(true, guard.BodyAuthID)
 	defer treasureObj.ReleaseTreasureGuard(guardID)
@@ -2996,6 +2997,7 @@ func (s *swamp) deleteHandler(key string, shadowDelete bool) (deletedTreasure tr
 	// send the deleted event_channel_handler to the neen
 	s.sendDeletedEventToClient(clonedTreasure)
 	s.sendSwampInfo()
+	verifhook.Point("swamp.deletehandler.end", verifhook.ID(s))
 
 	return treasureObj
 
